@@ -82,8 +82,10 @@ theorem runCallee_chain (P : Params) (m' : Machine) (f : Frame) (parents : List 
   · split
     · exact finishFrame_chain _ _ _ _ _ _ _ hc
     · split
-      · exact finishFrame_chain _ _ _ _ _ _ _ (chain_mono (List.prefix_append _ _) hc)
       · exact finishFrame_chain _ _ _ _ _ _ _ hc
+      · split
+        · exact finishFrame_chain _ _ _ _ _ _ _ (chain_mono (List.prefix_append _ _) hc)
+        · exact finishFrame_chain _ _ _ _ _ _ _ hc
   · exact finishFrame_chain _ _ _ _ _ _ _ hc
 
 theorem transferJournal_prefix (k : Kind) (v : Bool) (j : List Entry) : j <+: transferJournal k v j := by
